@@ -358,8 +358,64 @@ func c16Scenarios() []*explore.Scenario {
 				return "ok", ""
 			}}
 	}
+	// a client transaction stays open on the replica for the whole time: replication apply must get through (and
+	// the transaction keeps reading) - nothing of the client's may hold up the applier
+	openTx := &explore.Scenario{Name: "apply-while-client-tx-open", MaxSteps: 3_000_000,
+		Body: func() any {
+			dir := filepath.Join(fw.ProcDir("c16s"), "db")
+			r, err := newEngRun(dir, engCfgs["big"])
+			if err != nil {
+				return "open: " + err.Error()
+			}
+			defer r.Close()
+			r.Eng.Put([]byte("a"), []byte("a0"))
+			r.Eng.SetReadOnly(true)
+			ap := replication.NewEngineApplier(r.Eng)
+			tx, err := r.Eng.BeginTransaction(true)
+			if err != nil {
+				return "client-begin-failed\n" + err.Error()
+			}
+			var applyErr error
+			readErr := ""
+			t1 := vsched.GoNamed("APPLY", func() {
+				if err := ap.Apply(&wal.Entry{SequenceNumber: 2, Type: wal.OpTypePut, Key: []byte("r"), Value: []byte("r1")}); err != nil {
+					applyErr = err
+				}
+				if err := ap.Apply(&wal.Entry{SequenceNumber: 3, Type: wal.OpTypeDelete, Key: []byte("a")}); err != nil {
+					applyErr = err
+				}
+			})
+			t2 := vsched.GoNamed("CLIENT", func() {
+				if _, err := tx.Get([]byte("a")); err != nil && !isNotFound(err) {
+					readErr = err.Error()
+				}
+				it := tx.NewIterator()
+				for it.SeekToFirst(); it.Valid(); it.Next() {
+				}
+			})
+			vsched.Join(t1) // the transaction is still open here
+			vsched.Join(t2)
+			tx.Rollback()
+			if applyErr != nil {
+				return "replicated-apply-failed\n" + applyErr.Error()
+			}
+			if readErr != "" {
+				return "replica-read-failed\n" + readErr
+			}
+			if got := c16Snapshot(r.Eng).State; got != "r=r1" {
+				return "replica-state-wrong\nstate " + got + ", expected r=r1"
+			}
+			return ""
+		},
+		Check: func(s *vsched.Sched, o any) (string, string) {
+			if p := o.(string); p != "" {
+				return firstLine(p), p
+			}
+			return "ok", ""
+		}}
 	ctx := context.Background()
 	return []*explore.Scenario{
+		openTx,
 		mk("apply-vs-put", func(e *engine.EngineFacade, s *service.KevoServiceServer) error { return e.Put([]byte("x"), []byte("1")) }),
 		mk("apply-vs-delete", func(e *engine.EngineFacade, s *service.KevoServiceServer) error { return e.Delete([]byte("r")) }),
 		mk("apply-vs-batchwrite", func(e *engine.EngineFacade, s *service.KevoServiceServer) error {
@@ -448,7 +504,7 @@ func init() {
 		ID:    "C16",
 		Level: "model_checking",
 		Rule: "(A) the mutator set is computed: every entry point of *EngineFacade, transaction.Transaction and *KevoServiceServer (method sets by reflection; a method with neither a body nor a recorded exclusion is a HARNESS-ERROR) is invoked on a read-write twin holding data in 2 SSTables and the memtable; a call after which the scan or the log entries differ is a mutator. On the same state with SetReadOnly(true): every mutator except the *Internal replication bypasses must return a read-only error and leave scan and log unchanged; the bypasses must still take effect; non-mutators must succeed. " +
-			"(B) schedules: EngineApplier.Apply of 2 replicated entries against a client Put / Delete / BatchWrite, all interleavings up to the deviation bound (2 quick, 3 thorough): client always rejected, both entries applied, final state = replicated entries only, read-only flag intact. (C) replication.Manager started in standalone / primary / replica mode: GetNodeInfo reports role, primary address and read_only equal to the configured truth, and read_only follows the engine's flag (and what a client Put experiences) when the flag is switched in either direction; after Start returned in replica mode client writes are rejected. Non-trivial = entry points evaluated / executions with a cross-thread conflict",
+			"(B) schedules: EngineApplier.Apply of 2 replicated entries against a client Put / Delete / BatchWrite, and while a client's read-only transaction stays open and reads (the apply must complete before the transaction ends), all interleavings up to the deviation bound (2 quick, 3 thorough): client always rejected, both entries applied, final state = replicated entries only, read-only flag intact. (C) replication.Manager started in standalone / primary / replica mode: GetNodeInfo reports role, primary address and read_only equal to the configured truth, and read_only follows the engine's flag (and what a client Put experiences) when the flag is switched in either direction; after Start returned in replica mode client writes are rejected. Non-trivial = entry points evaluated / executions with a cross-thread conflict",
 		Assumptions: []string{"the window inside Manager.Start (replica started before the engine is switched to read-only) is not part of 'running as a replica' and is not flagged", "the manager unit runs free (real listeners on loopback)"},
 		Units: func(tier string) []string {
 			us := []string{"seq", "manager"}
